@@ -431,7 +431,7 @@ void mythv_leave(int rank) {
 }
 
 /* ------------------------------------------------------------------ ledger */
-#define LG_MAX 512
+#define LG_MAX 2048
 enum { LG_FREE = 0, LG_OWNED = 1 };
 static struct lg { void * p; size_t sz; int kind, state, rank; } LG[LG_MAX];
 static int lg_n;
@@ -463,7 +463,7 @@ void mythv_alloc(int kind, void * p, size_t sz, int rank) {
     finish_verdict(MV_VIOLATION, b);
   }
   if (!e) {
-    if (lg_n >= LG_MAX) finish_verdict(MV_VIOLATION, "runaway thread creation: a bounded program made the library hand out more than 512 distinct thread records / stacks (unbounded recursion)");
+    if (lg_n >= LG_MAX) finish_verdict(MV_VIOLATION, "runaway thread creation: a bounded program made the library hand out more than 2048 distinct thread records / stacks (unbounded recursion)");
     e = &LG[lg_n++]; e->p = p; e->kind = kind; lg_fresh[kind]++;
     if (kind == mythv_k_desc) mv_sh->fresh_desc++; else mv_sh->fresh_stack++;
   } else {
